@@ -534,5 +534,496 @@ theorem ncmp_trans (a b c : List Nat) (ci : Bool)
             simp only [if_true] at e1 e2 ⊢
             rw [lexCmp_lt_trans _ _ _ e1 e2]; simp
 
+/-! ## the remaining clauses: prefix, digit/non-digit, bytewise, numeric value -/
+
+/-! ### dropZeros / takeDigits basics -/
+theorem dropZeros_ne48 (c : Nat) (t : List Nat) (h : c ≠ 48) : dropZeros (c :: t) = (0, c :: t) := by
+  unfold dropZeros; split
+  · rename_i heq; simp at heq; exact absurd heq.1 h
+  · rfl
+
+theorem dropZeros_head (l : List Nat) : (dropZeros l).2.head? ≠ some 48 := by
+  induction l with
+  | nil => simp [dropZeros]
+  | cons c t ih =>
+    by_cases h : c = 48
+    · subst h; simpa [dropZeros] using ih
+    · rw [dropZeros_ne48 c t h]; simpa using h
+
+theorem takeDigits_digits (l : List Nat) : ∀ c ∈ (takeDigits l).1, isDigit c = true := by
+  induction l with
+  | nil => simp [takeDigits]
+  | cons c t ih =>
+    simp only [takeDigits]; split
+    · intro x hx
+      simp at hx
+      rcases hx with hx | hx
+      · subst hx; assumption
+      · exact ih x hx
+    · simp
+
+theorem takeDigits_head (l : List Nat) (h : l.head? ≠ some 48) : (takeDigits l).1.head? ≠ some 48 := by
+  cases l with
+  | nil => simp [takeDigits]
+  | cons c t =>
+    simp only [takeDigits]; split
+    · simpa using h
+    · simp
+
+/-- the digit run of a key chunk consists of digits only … -/
+theorem dg_digits (l : List Nat) : ∀ c ∈ dg l, isDigit c = true := takeDigits_digits _
+/-- … and never starts with the byte `'0'` -/
+theorem dg_head (l : List Nat) : (dg l).head? ≠ some 48 := takeDigits_head _ (dropZeros_head l)
+
+/-! ### dropZeros / takeDigits on appends -/
+theorem dropZeros_append (a s : List Nat) :
+    dropZeros (a ++ s) =
+      if (dropZeros a).2 = [] then ((dropZeros a).1 + (dropZeros s).1, (dropZeros s).2)
+      else ((dropZeros a).1, (dropZeros a).2 ++ s) := by
+  induction a with
+  | nil => simp [dropZeros]
+  | cons c t ih =>
+    by_cases h : c = 48
+    · subst h
+      simp only [List.cons_append, dropZeros, ih]
+      split <;> simp <;> omega
+    · rw [List.cons_append, dropZeros_ne48 c (t ++ s) h, dropZeros_ne48 c t h]; simp
+
+theorem takeDigits_append (a s : List Nat) :
+    takeDigits (a ++ s) =
+      if (takeDigits a).2 = [] then ((takeDigits a).1 ++ (takeDigits s).1, (takeDigits s).2)
+      else ((takeDigits a).1, (takeDigits a).2 ++ s) := by
+  induction a with
+  | nil => simp [takeDigits]
+  | cons c t ih =>
+    simp only [List.cons_append, takeDigits]
+    by_cases h : isDigit c = true
+    · simp only [h, if_true, ih]
+      split <;> simp
+    · simp [h]
+
+/-! ### a proper prefix sorts first -/
+theorem takeDigits_fst_nil (l : List Nat) (h : (takeDigits l).1 = []) : (takeDigits l).2 = l := by
+  have := takeDigits_recon l
+  rw [h] at this; simpa using this
+
+/-- appending `s` to `a` either leaves the leading number chunk of `a` unchanged (and `s` goes to the rest) or makes
+    the leading number chunk strictly larger -/
+theorem chunk_append (a s : List Nat) :
+    (zc (a ++ s) = zc a ∧ dg (a ++ s) = dg a ∧ rs (a ++ s) = rs a ++ s) ∨
+      cmpChunk (.num (dg a) (zc a)) (.num (dg (a ++ s)) (zc (a ++ s))) = .lt := by
+  unfold zc dg rs
+  rw [dropZeros_append]
+  by_cases h1 : (dropZeros a).2 = []
+  · simp only [h1, if_true]
+    by_cases h2 : (takeDigits (dropZeros s).2).1 = []
+    · by_cases h3 : (dropZeros s).1 = 0
+      · left
+        have r := dropZeros_recon s
+        rw [h3] at r
+        simp only [List.replicate_zero, List.nil_append] at r
+        rw [r] at h2 ⊢
+        simp [h3, takeDigits, h2, takeDigits_fst_nil s h2]
+      · right
+        rw [num_lt_iff]
+        right
+        simp [takeDigits, h2]; omega
+    · right
+      rw [num_lt_iff]
+      left
+      simp [takeDigits]
+      exact List.length_pos_iff.mpr h2
+  · simp only [h1, if_false]
+    rw [takeDigits_append]
+    by_cases h2 : (takeDigits (dropZeros a).2).2 = []
+    · simp only [h2, if_true]
+      by_cases h3 : (takeDigits s).1 = []
+      · left; simp [h3, takeDigits_fst_nil s h3]
+      · right
+        rw [num_lt_iff]
+        left
+        have := List.length_pos_iff.mpr h3
+        simp; omega
+    · left; simp [h2]
+
+theorem key_ne_nil (ci : Bool) (s : List Nat) (h : s ≠ []) : key ci s ≠ [] := by
+  cases s with
+  | nil => exact absurd rfl h
+  | cons c t => unfold key; split <;> simp
+
+theorem key_prefix_lt (ci : Bool) (a s : List Nat) (hs : s ≠ []) : lexCmp (key ci a) (key ci (a ++ s)) = .lt := by
+  fun_induction key ci a with
+  | case1 =>
+    have := key_ne_nil ci s hs
+    simp only [List.nil_append]
+    cases hk : key ci s with
+    | nil => exact absurd hk this
+    | cons _ _ => simp [lexCmp]
+  | case2 c t h ih =>
+    have e : key ci (c :: t ++ s) =
+        Chunk.num (dg (c :: t ++ s)) (zc (c :: t ++ s)) :: key ci (rs (c :: t ++ s)) := by
+      rw [List.cons_append, key]; simp [h]
+    rw [e]
+    simp only [lexCmp]
+    rcases chunk_append (c :: t) s with ⟨e1, e2, e3⟩ | hlt
+    · rw [e1, e2, e3, (cmpChunk_eq_iff _ _).mpr rfl]
+      simpa [Ordering.then] using ih
+    · rw [hlt]; rfl
+  | case3 c t h ih =>
+    have e : key ci (c :: t ++ s) = Chunk.byte (fold ci c) :: key ci (t ++ s) := by
+      rw [List.cons_append, key]; simp [h]
+    rw [e]
+    simp only [lexCmp, (cmpChunk_eq_iff _ _).mpr rfl]
+    simpa [Ordering.then] using ih
+
+/-- a proper prefix sorts first, in both case modes -/
+theorem ncmp_prefix (a s : List Nat) (ci : Bool) (hs : s ≠ []) : ncmp a (a ++ s) ci = .lt := by
+  rw [ncmp_lex, key_prefix_lt ci a s hs]; rfl
+
+/-! ### keys of concatenations; common prefixes -/
+theorem rs_nil_digits (p : List Nat) (h : rs p = []) : ∀ c ∈ p, isDigit c = true := by
+  intro c hc
+  rw [← recon p, h] at hc
+  simp only [List.append_nil, List.mem_append, List.mem_replicate] at hc
+  rcases hc with ⟨_, hc⟩ | hc
+  · subst hc; rfl
+  · exact dg_digits p c hc
+
+theorem rs_getLast (p : List Nat) (c : Nat) (h : (rs p).getLast? = some c) : p.getLast? = some c := by
+  have r := recon p
+  rw [← r, List.getLast?_append, h]; rfl
+
+/-- if `a` does not end inside a digit run that `s` continues, appending `s` leaves the leading chunk of `a` alone -/
+theorem chunk_append_sep (a s : List Nat)
+    (h : rs a ≠ [] ∨ ∀ c, s.head? = some c → isDigit c = false) :
+    zc (a ++ s) = zc a ∧ dg (a ++ s) = dg a ∧ rs (a ++ s) = rs a ++ s := by
+  rcases h with h | h
+  · unfold zc dg rs at *
+    have h1 : (dropZeros a).2 ≠ [] := by
+      intro e; rw [e] at h; simp [takeDigits] at h
+    rw [dropZeros_append, if_neg h1]
+    simp only
+    rw [takeDigits_append, if_neg h]
+    simp
+  · cases s with
+    | nil => simp
+    | cons d u =>
+      have hd : isDigit d = false := h d rfl
+      have hd48 : d ≠ 48 := by intro e; subst e; simp [isDigit] at hd
+      have t1 : takeDigits (d :: u) = ([], d :: u) := by simp [takeDigits, hd]
+      unfold zc dg rs
+      rw [dropZeros_append, dropZeros_ne48 d u hd48]
+      by_cases h1 : (dropZeros a).2 = []
+      · simp [h1, t1, takeDigits]
+      · simp only [h1, if_false]
+        rw [takeDigits_append, t1]
+        split <;> simp_all
+
+theorem key_append (ci : Bool) (p x : List Nat)
+    (h : (∀ c, p.getLast? = some c → isDigit c = false) ∨ (∀ c, x.head? = some c → isDigit c = false)) :
+    key ci (p ++ x) = key ci p ++ key ci x := by
+  fun_induction key ci p with
+  | case1 => simp
+  | case2 c t hd ih =>
+    have hc : rs (c :: t) ≠ [] ∨ ∀ c, x.head? = some c → isDigit c = false := by
+      rcases h with h | h
+      · left
+        intro hnil
+        have hall := rs_nil_digits (c :: t) hnil
+        have hl : (c :: t).getLast? = some ((c :: t).getLast (by simp)) := List.getLast?_eq_some_getLast (by simp)
+        have := h _ hl
+        have := hall _ (List.getLast_mem (l := c :: t) (by simp))
+        simp_all
+      · exact Or.inr h
+    obtain ⟨e1, e2, e3⟩ := chunk_append_sep (c :: t) x hc
+    have e : key ci (c :: t ++ x) =
+        Chunk.num (dg (c :: t ++ x)) (zc (c :: t ++ x)) :: key ci (rs (c :: t ++ x)) := by
+      rw [List.cons_append, key]; simp [hd]
+    rw [e, e1, e2, e3, ih (h.imp (fun h1 c' hl => h1 c' (rs_getLast _ _ hl)) id)]
+    simp
+  | case3 c t hd ih =>
+    have e : key ci (c :: t ++ x) = Chunk.byte (fold ci c) :: key ci (t ++ x) := by
+      rw [List.cons_append, key]; simp [hd]
+    rw [e, ih (h.imp (fun h1 c' hl => h1 c' (by
+      cases t with
+      | nil => simp at hl
+      | cons d u => simpa [List.getLast?_cons_cons] using hl)) id)]
+    simp
+
+theorem lexCmp_append_left (k x y : List Chunk) : lexCmp (k ++ x) (k ++ y) = lexCmp x y := by
+  induction k with
+  | nil => rfl
+  | cons a k ih => simp [lexCmp, (cmpChunk_eq_iff a a).mpr rfl, Ordering.then, ih]
+
+/-- a common prefix that does not end in a digit can be cancelled -/
+theorem ncmp_common_prefix (p a b : List Nat) (ci : Bool) (h : ∀ c, p.getLast? = some c → isDigit c = false) :
+    ncmp (p ++ a) (p ++ b) ci = ncmp a b ci := by
+  simp only [ncmp_lex, key_append _ p _ (Or.inl h), lexCmp_append_left]
+
+/-! ### digits sort before other bytes -/
+theorem ncmp_digit_nondigit (c1 c2 : Nat) (s t : List Nat) (ci : Bool)
+    (h1 : isDigit c1 = true) (h2 : isDigit c2 = false) : ncmp (c1 :: s) (c2 :: t) ci = .lt := by
+  unfold ncmp ncmpLoop; simp [h1, h2]
+
+/-! ### strings without digits compare bytewise -/
+theorem key_nodigit (ci : Bool) (a : List Nat) (h : ∀ c ∈ a, isDigit c = false) :
+    key ci a = a.map (fun c => Chunk.byte (fold ci c)) := by
+  induction a with
+  | nil => simp [key]
+  | cons c t ih =>
+    have hc : isDigit c = false := h c (by simp)
+    rw [key]; simp [hc, ih (fun x hx => h x (by simp [hx]))]
+
+theorem cmpBytes_cons (x y : Nat) (s t : List Nat) :
+    cmpBytes (x :: s) (y :: t) = (cmpNat x y).then (cmpBytes s t) := by
+  simp only [cmpBytes, cmpNat]
+  by_cases h1 : x < y <;> by_cases h2 : x > y <;> simp [h1, h2, Ordering.then]
+
+theorem lexCmp_bytes (a b : List Nat) : lexCmp (a.map Chunk.byte) (b.map Chunk.byte) = cmpBytes a b := by
+  induction a generalizing b with
+  | nil => cases b <;> simp [lexCmp, cmpBytes]
+  | cons x s ih =>
+    cases b with
+    | nil => simp [lexCmp, cmpBytes]
+    | cons y t => simp only [List.map_cons, lexCmp, cmpChunk, cmpBytes_cons, ih]
+
+theorem ncmp_nodigit (a b : List Nat) (ci : Bool)
+    (ha : ∀ c ∈ a, isDigit c = false) (hb : ∀ c ∈ b, isDigit c = false) :
+    ncmp a b ci =
+      (cmpBytes (a.map (fold ci)) (b.map (fold ci))).then (if ci then cmpBytes a b else .eq) := by
+  have m : ∀ (c : Bool) (l : List Nat),
+      l.map (fun x => Chunk.byte (fold c x)) = (l.map (fold c)).map Chunk.byte := by
+    intro c l; simp
+  rw [ncmp_lex, key_nodigit ci a ha, key_nodigit ci b hb, key_nodigit false a ha, key_nodigit false b hb]
+  simp only [m, lexCmp_bytes]
+  have f : ∀ l : List Nat, l.map (fold false) = l := by
+    intro l; induction l with
+    | nil => rfl
+    | cons x l ih => simp [fold_false, ih]
+  rw [f, f]
+
+/-- `cmpBytes` is Lean's own lexicographic order on lists of bytes -/
+theorem cmpBytes_lt_iff (a b : List Nat) : cmpBytes a b = .lt ↔ a < b := by
+  induction a generalizing b with
+  | nil => cases b <;> simp [cmpBytes]
+  | cons x s ih =>
+    cases b with
+    | nil => simp [cmpBytes]
+    | cons y t =>
+      rw [List.cons_lt_cons_iff, ← ih]
+      simp only [cmpBytes]
+      by_cases h1 : x < y
+      · simp [h1]
+      · by_cases h2 : x > y
+        · simp [h1, h2]; omega
+        · have : x = y := by omega
+          simp [this]
+
+/-! ### digit runs compare by numeric value -/
+/-- decimal value of a list of digit bytes (most significant first) -/
+def val : List Nat → Nat
+  | [] => 0
+  | c :: t => (c - 48) * 10 ^ t.length + val t
+
+/-- Horner form: appending a digit multiplies by ten and adds it -/
+theorem val_snoc (l : List Nat) (c : Nat) : val (l ++ [c]) = val l * 10 + (c - 48) := by
+  induction l with
+  | nil => simp [val]
+  | cons x l ih =>
+    simp only [List.cons_append, val, ih, List.length_append, List.length_cons, List.length_nil, Nat.pow_succ,
+      Nat.add_mul, Nat.mul_assoc]
+    omega
+
+theorem val_lt (l : List Nat) (h : ∀ c ∈ l, isDigit c = true) : val l < 10 ^ l.length := by
+  induction l with
+  | nil => simp [val]
+  | cons c t ih =>
+    have hc : c - 48 ≤ 9 := by
+      have := h c (by simp); simp [isDigit] at this; omega
+    have i := ih (fun x hx => h x (by simp [hx]))
+    have m := Nat.mul_le_mul_right (10 ^ t.length) hc
+    simp only [val, List.length_cons, Nat.pow_succ]
+    omega
+
+theorem val_ge (c : Nat) (t : List Nat) (hc : isDigit c = true) (h0 : c ≠ 48) : 10 ^ t.length ≤ val (c :: t) := by
+  have h1 : 1 ≤ c - 48 := by simp [isDigit] at hc; omega
+  have m := Nat.mul_le_mul_right (10 ^ t.length) h1
+  simp only [val]; omega
+
+theorem val_zeros (n : Nat) (l : List Nat) : val (List.replicate n 48 ++ l) = val l := by
+  induction n with
+  | zero => simp
+  | succ n ih => simp [List.replicate_succ, val, ih]
+
+/-- on digit strings of the same length, the bytewise comparison is the comparison of the values -/
+theorem cmpBytes_val (a b : List Nat) (hl : a.length = b.length)
+    (ha : ∀ c ∈ a, isDigit c = true) (hb : ∀ c ∈ b, isDigit c = true) :
+    cmpBytes a b = cmpNat (val a) (val b) := by
+  induction a generalizing b with
+  | nil => cases b <;> simp_all [cmpBytes, cmpNat, val]
+  | cons x s ih =>
+    cases b with
+    | nil => simp at hl
+    | cons y t =>
+      have hl' : s.length = t.length := by simpa using hl
+      have hx := ha x (by simp)
+      have hy := hb y (by simp)
+      have hs := fun c hc => ha c (List.mem_cons_of_mem x hc)
+      have ht := fun c hc => hb c (List.mem_cons_of_mem y hc)
+      have ls := val_lt s hs
+      have lt := val_lt t ht
+      simp only [isDigit, Bool.and_eq_true, decide_eq_true_eq] at hx hy
+      rw [hl'] at ls
+      simp only [cmpBytes, val, hl']
+      by_cases h1 : x < y
+      · have m := Nat.mul_le_mul_right (10 ^ t.length) (show x - 48 + 1 ≤ y - 48 by omega)
+        rw [Nat.add_mul] at m
+        rw [if_pos h1]; symm; rw [cmpNat_lt_iff]; omega
+      · by_cases h2 : x > y
+        · have m := Nat.mul_le_mul_right (10 ^ t.length) (show y - 48 + 1 ≤ x - 48 by omega)
+          rw [Nat.add_mul] at m
+          rw [if_neg h1, if_pos h2]; symm
+          rw [cmpNat_swap, (cmpNat_lt_iff _ _).mpr (by omega)]; rfl
+        · have : x = y := by omega
+          subst this
+          rw [if_neg h1, if_neg h2, ih t hl' hs ht, cmpNat_add_left]
+
+/-- two number chunks whose digit runs have no leading zero compare by VALUE first, whatever the lengths of the runs;
+    equal values are ordered by the number of leading zeros, fewer first -/
+theorem cmpChunk_num_val (n1 n2 : List Nat) (z1 z2 : Nat)
+    (d1 : ∀ c ∈ n1, isDigit c = true) (d2 : ∀ c ∈ n2, isDigit c = true)
+    (l1 : n1.head? ≠ some 48) (l2 : n2.head? ≠ some 48) :
+    cmpChunk (.num n1 z1) (.num n2 z2) = (cmpNat (val n1) (val n2)).then (cmpNat z1 z2) := by
+  -- a shorter run without leading zero has the smaller value
+  have short : ∀ (a b : List Nat), (∀ c ∈ a, isDigit c = true) → (∀ c ∈ b, isDigit c = true) →
+      b.head? ≠ some 48 → a.length < b.length → val a < val b := by
+    intro a b da db lb hlt
+    cases b with
+    | nil => simp at hlt
+    | cons y t =>
+      have g := val_ge y t (db y (by simp)) (by simpa using lb)
+      have u := val_lt a da
+      have p : 10 ^ a.length ≤ 10 ^ t.length := Nat.pow_le_pow_right (by omega) (by simp at hlt; omega)
+      omega
+  simp only [cmpChunk]
+  by_cases hl : n1.length = n2.length
+  · by_cases hn : n1 = n2
+    · subst hn; simp [(cmpNat_eq_iff _ _).mpr rfl, Ordering.then]
+    · have hb : cmpBytes n1 n2 ≠ .eq := fun e => hn ((cmpBytes_eq_iff _ _).mp e)
+      rw [cmpBytes_val n1 n2 hl d1 d2] at hb
+      simp only [hl, bne_self_eq_false, Bool.false_eq_true, if_false, bne_iff_ne, ne_eq, hn, not_false_eq_true, if_true]
+      rw [cmpBytes_val n1 n2 hl d1 d2]
+      cases hc : cmpNat (val n1) (val n2) <;> simp_all [Ordering.then]
+  · have hl' : (n1.length != n2.length) = true := by simpa using hl
+    rw [if_pos hl']
+    rcases Nat.lt_or_gt_of_ne hl with h | h
+    · rw [(cmpNat_lt_iff _ _).mpr h, (cmpNat_lt_iff _ _).mpr (short n1 n2 d1 d2 l2 h)]; rfl
+    · rw [cmpNat_swap, (cmpNat_lt_iff _ _).mpr h, cmpNat_swap (val n2) (val n1),
+        (cmpNat_lt_iff _ _).mpr (short n2 n1 d2 d1 l1 h)]; rfl
+
+/-! ### string-level forms of the numeric rule -/
+theorem takeDigits_zeros (n : Nat) (l : List Nat) :
+    takeDigits (List.replicate n 48 ++ l) = (List.replicate n 48 ++ (takeDigits l).1, (takeDigits l).2) := by
+  induction n with
+  | zero => simp
+  | succ n ih => simp [List.replicate_succ, takeDigits, isDigit, ih]
+
+/-- the maximal digit prefix of `l` is `zc l` zeros followed by `dg l`; what follows it is `rs l` -/
+theorem takeDigits_eq (l : List Nat) : takeDigits l = (List.replicate (zc l) 48 ++ dg l, rs l) := by
+  conv => lhs; rw [← dropZeros_recon l]
+  rw [takeDigits_zeros]; rfl
+
+/-- the value of the whole digit run (leading zeros included) is the value of its significant digits -/
+theorem val_run (l : List Nat) : val (takeDigits l).1 = val (dg l) := by
+  rw [takeDigits_eq, val_zeros]
+
+theorem key_digit_cons (ci : Bool) (c : Nat) (t : List Nat) (h : isDigit c = true) :
+    key ci (c :: t) = Chunk.num (dg (c :: t)) (zc (c :: t)) :: key ci (rs (c :: t)) := by
+  rw [key]; simp [h]
+
+/-- two strings that both start with a digit: the leading numbers are compared by value, then by number of
+    leading zeros, and only then the remainders are compared -/
+theorem ncmp_digit_head (c1 c2 : Nat) (t1 t2 : List Nat) (ci : Bool)
+    (h1 : isDigit c1 = true) (h2 : isDigit c2 = true) :
+    ncmp (c1 :: t1) (c2 :: t2) ci =
+      ((cmpNat (val (takeDigits (c1 :: t1)).1) (val (takeDigits (c2 :: t2)).1)).then
+        (cmpNat (zc (c1 :: t1)) (zc (c2 :: t2)))).then
+        (ncmp (takeDigits (c1 :: t1)).2 (takeDigits (c2 :: t2)).2 ci) := by
+  rw [val_run, val_run, takeDigits_eq, takeDigits_eq]
+  simp only
+  rw [← cmpChunk_num_val _ _ _ _ (dg_digits _) (dg_digits _) (dg_head _) (dg_head _)]
+  simp only [ncmp_lex, key_digit_cons _ _ _ h1, key_digit_cons _ _ _ h2, lexCmp]
+  cases cmpChunk (Chunk.num (dg (c1 :: t1)) (zc (c1 :: t1))) (Chunk.num (dg (c2 :: t2)) (zc (c2 :: t2))) <;>
+    cases ci <;> simp [Ordering.then]
+
+theorem takeDigits_all (l : List Nat) (h : ∀ c ∈ l, isDigit c = true) : takeDigits l = (l, []) := by
+  induction l with
+  | nil => simp [takeDigits]
+  | cons c t ih =>
+    simp [takeDigits, h c (by simp), ih (fun x hx => h x (by simp [hx]))]
+
+theorem zc_pos_of_val_zero (b : List Nat) (hne : b ≠ []) (hb : ∀ c ∈ b, isDigit c = true) (hv : val b = 0) :
+    0 < zc b := by
+  have e := takeDigits_eq b
+  rw [takeDigits_all b hb] at e
+  injection e with e1 e2
+  have hv' : val (dg b) = 0 := by rw [← val_zeros (zc b) (dg b), ← e1]; exact hv
+  cases hd : dg b with
+  | nil =>
+    rw [hd] at e1
+    cases hz : zc b with
+    | zero => rw [hz] at e1; simp at e1; exact absurd e1 hne
+    | succ n => omega
+  | cons y t =>
+    have g := val_ge y t (dg_digits b y (by simp [hd])) (by have := dg_head b; rw [hd] at this; simpa using this)
+    have : 0 < 10 ^ t.length := Nat.pow_pos (by omega)
+    rw [hd] at hv'; omega
+
+theorem ncmp_nil_left (b : List Nat) (ci : Bool) (h : b ≠ []) : ncmp [] b ci = .lt := by
+  simpa using ncmp_prefix [] b ci h
+
+/-- whole strings that are digit runs: compare the values, then the numbers of leading zeros -/
+theorem ncmp_digits (a b : List Nat) (ci : Bool)
+    (ha : ∀ c ∈ a, isDigit c = true) (hb : ∀ c ∈ b, isDigit c = true) :
+    ncmp a b ci = (cmpNat (val a) (val b)).then (cmpNat (zc a) (zc b)) := by
+  have nilcase : ∀ (b : List Nat), b ≠ [] → (∀ c ∈ b, isDigit c = true) →
+      (cmpNat (val []) (val b)).then (cmpNat (zc []) (zc b)) = .lt := by
+    intro b hne hb
+    by_cases hv : val b = 0
+    · have := zc_pos_of_val_zero b hne hb hv
+      rw [hv]
+      simp only [val, (cmpNat_eq_iff _ _).mpr, Ordering.then]
+      exact (cmpNat_lt_iff _ _).mpr (by simpa [zc, dropZeros] using this)
+    · rw [(cmpNat_lt_iff _ _).mpr (by simp only [val]; omega)]; rfl
+  cases a with
+  | nil =>
+    cases b with
+    | nil => simp [ncmp, ncmpLoop, cmpNat, Ordering.then]
+    | cons y t => rw [ncmp_nil_left _ _ (by simp), nilcase _ (by simp) hb]
+  | cons x s =>
+    cases b with
+    | nil =>
+      rw [ncmp_swap, ncmp_nil_left _ _ (by simp), cmpNat_swap, cmpNat_swap (zc _), ← Ordering.swap_then,
+        nilcase _ (by simp) ha]
+    | cons y t =>
+      rw [ncmp_digit_head x y s t ci (ha x (by simp)) (hb y (by simp)), takeDigits_all _ ha, takeDigits_all _ hb]
+      simp [ncmp, ncmpLoop, cmpNat]
+
+
+/-- every number chunk of a key satisfies the hypotheses of `cmpChunk_num_val` -/
+theorem key_num_wf (ci : Bool) (s : List Nat) :
+    ∀ n z, Chunk.num n z ∈ key ci s → (∀ c ∈ n, isDigit c = true) ∧ n.head? ≠ some 48 := by
+  fun_induction key ci s with
+  | case1 => simp
+  | case2 c t h ih =>
+    intro n z hm
+    simp only [List.mem_cons, Chunk.num.injEq] at hm
+    rcases hm with ⟨e1, _⟩ | hm
+    · subst e1; exact ⟨dg_digits _, dg_head _⟩
+    · exact ih n z hm
+  | case3 c t h ih =>
+    intro n z hm
+    simp only [List.mem_cons, reduceCtorEq, false_or] at hm
+    exact ih n z hm
 
 end NatSort
